@@ -18,10 +18,11 @@ import MdModel.DumpCtx
 import MdModel.DumpText
 import MdModel.DumpMisc
 import MdModel.DumpMiscInfo
+import MdModel.DumpMaps
 namespace MdModel.Dump
 open MdModel
 open MdModel.Gen.LayoutsX
-open MdModel.Gen.LayoutsC02 (ST_MiscInfoStream)
+open MdModel.Gen.LayoutsC02 (ST_MiscInfoStream ST_LinuxMaps)
 
 structure Extra where
   sys : Except Err SysInfo
@@ -121,7 +122,9 @@ def readFull (ms : MemSizes) (b : Bytes) : M (Except Err Full) :=
 
 /-! ## the third group (`readMore`): what was only sampled until round 4
 
-    * `MinidumpMiscInfo` with its accessors and printer (MdModel.DumpMiscInfo).
+    * `MinidumpMiscInfo` with its accessors and printer (MdModel.DumpMiscInfo),
+    * `MinidumpLinuxMaps` (MdModel.DumpMaps): the reader — which PANICS on hostile lines, the open
+      finding C01-procfs-mmappath —, its lookup table, `memory_info_at_address` around every entry.
 
   `readWhole` = `readFull` then `readMore` is what the driver runs. -/
 
@@ -134,15 +137,34 @@ def M.catchUnwind {α : Type} (x : M α) : M (Except String α) :=
   | .err e => ⟨.err e, x.allocs⟩
   | .panic s => ⟨.ok (.error s), x.allocs⟩
 
+/-- what the engine compares of a Linux-maps stream -/
+structure MapsOut where
+  maps : LinuxMapsX
+  /-- `memory_info_at_address` at both ends of every entry and next to them: the index served -/
+  probes : List (Nat × Option Nat)
+
+/-- `get_stream::<MinidumpLinuxMaps>` followed by the lookups -/
+def readMapsOut (s : Bytes) : M MapsOut :=
+  readLinuxMapsX s >>= fun m =>
+  mapsProbes m (mapsProbeAddrs m.entries) >>= fun ps =>
+  pure ⟨m, ps⟩
+
 structure More where
   misc : Except Err MiscPrinted
+  /-- `.error site`: the panic of the operation, caught (render mode only) -/
+  maps : Except String (Except Err MapsOut)
 
-/-- `caught` = render mode (see `M.catchUnwind`); nothing of this group can panic yet -/
-def readMore (_caught : Bool) (b : Bytes) (f : Full) : M More :=
+/-- one operation, wrapped in `catch_unwind` in render mode -/
+def guarded {α : Type} (caught : Bool) (x : M α) : M (Except String α) :=
+  if caught then M.catchUnwind x else x >>= fun a => pure (.ok a)
+
+/-- `caught` = render mode (see `M.catchUnwind`): only the Linux-maps operation can panic -/
+def readMore (caught : Bool) (b : Bytes) (f : Full) : M More :=
   let d := f.base.dump
   let e := d.endian
   getStream d b ST_MiscInfoStream (fun s => readMiscInfoX s e) >>= fun misc =>
-  pure { misc := misc }
+  guarded caught (getStream d b ST_LinuxMaps readMapsOut) >>= fun maps =>
+  pure { misc := misc, maps := maps }
 
 structure Whole where
   full : Full
